@@ -29,10 +29,10 @@ open Muscle Muscle.Reflector
 /-- Batching of update Messages is invisible to the subscriber, for every limit `maxItems`, every event
     sequence and every placement of additional flushes. -/
 theorem batching_invisible (maxItems : Nat) (evs : List (Ev × Bool)) (m : Mirror) :
-    applyAll m (delivered (run maxItems {} evs)) = (evs.map (·.1)).foldl applyEv m := by
+    applyMsgs m (delivered (run maxItems {} evs)) = (evs.map (·.1)).foldl applyEv m := by
   have h := view_run maxItems evs {} m
   have h0 : (({} : Pipe)).view m = m := by
-    simp [Pipe.view, applyAll, applyMsg_empty]
+    simp [Pipe.view, applyMsgs, applyMsg_empty]
   rw [h0] at h
   rw [← h, ← view_flush]
   unfold delivered Pipe.view
